@@ -210,6 +210,7 @@ type gbFacts struct {
 	declared  int
 	hasLocus  bool
 	hasOrigin bool
+	hasContig bool
 	residues  int
 	closed    bool
 	// the ORIGIN or `//` line sits inside an open double quote of the feature table (it is text
@@ -223,8 +224,9 @@ func c07Facts(data []byte) []gbFacts {
 	inOrigin := false
 	started := false
 	inTable, open := false, false
-	for _, ln := range bytes.Split(data, []byte("\n")) {
-		ln = bytes.TrimSuffix(ln, []byte("\r"))
+	// line ends as the reader sees them: LF, CR LF, or a lone CR
+	norm := bytes.ReplaceAll(bytes.ReplaceAll(data, []byte("\r\n"), []byte("\n")), []byte("\r"), []byte("\n"))
+	for _, ln := range bytes.Split(norm, []byte("\n")) {
 		if bytes.HasPrefix(ln, []byte("FEATURES")) {
 			inTable, open = true, false
 		} else if inTable && !inOrigin {
@@ -254,6 +256,8 @@ func c07Facts(data []byte) []gbFacts {
 			started, inOrigin = false, false
 			inTable, open = false, false
 			cur = gbFacts{}
+		case bytes.HasPrefix(ln, []byte("CONTIG")) && started && !inOrigin:
+			cur.hasContig = true
 		case bytes.HasPrefix(ln, []byte("ORIGIN")) && started:
 			cur.hasOrigin = true
 			inOrigin = true
@@ -344,36 +348,41 @@ func (c *c07Ctx) scanCase(class string, data []byte, mustFail bool) scanResult {
 		}
 		if nGb < len(facts) {
 			f := facts[nGb]
-			if f.ambiguous {
-				r.count("consistency/ORIGIN or // inside a quoted qualifier value (not judged)")
-			} else if f.hasLocus && f.hasOrigin && f.closed {
-				if res.lens[i] != f.declared || res.lens[i] != f.residues {
-					pred := func(d []byte) bool {
-						rr := c07Scan(d)
-						ff := c07Facts(d)
-						if len(rr.lens) == 0 || len(ff) == 0 || rr.kinds[0] != "gb" {
-							return false
-						}
-						return !ff[0].ambiguous && ff[0].hasLocus && ff[0].hasOrigin && ff[0].closed && (rr.lens[0] != ff[0].declared || rr.lens[0] != ff[0].residues)
-					}
-					small := data
-					if nGb == 0 {
-						small = c.shrink(data, pred)
-					}
-					fid := ""
-					if isK7C(small) {
-						fid = "K7C"
-					}
-					r.fail(Failure{Oracle: "a scanned record has Len = declared LOCUS length = residues in its ORIGIN block (" + class + ")", Finding: fid,
-						Op: "scan.auto " + encBytes(small), Got: fmt.Sprintf("%s (record %d: Len %d, declared %d, residues present %d)", res.String(), nGb, res.lens[i], f.declared, f.residues),
-						Want: "an error, or no record"})
-				} else {
-					r.count("consistency/checked")
-				}
-			} else if f.hasLocus && !f.hasOrigin {
-				r.count("consistency/record without ORIGIN line (lenient: not judged)")
-			} else if !f.closed {
+			// (a) whatever the record looks like: its length is the declared one, unless it is a
+			//     CON record (CONTIG line, no sequence)
+			// (b) with an ORIGIN block that is a field of the record: also the residues present
+			badLen := f.declared != -1<<40 && res.lens[i] != f.declared && !(res.lens[i] == 0 && f.hasContig)
+			badRes := f.hasOrigin && !f.ambiguous && res.lens[i] != f.residues
+			switch {
+			case !f.hasLocus:
+			case !f.closed:
 				r.fail(Failure{Oracle: "a record that is not closed by `//` is not returned (" + class + ")", Op: op, Got: res.String(), Want: "no record"})
+			case badLen || badRes:
+				pred := func(d []byte) bool {
+					rr := c07Scan(d)
+					ff := c07Facts(d)
+					if len(rr.lens) == 0 || len(ff) == 0 || rr.kinds[0] != "gb" || !ff[0].hasLocus || !ff[0].closed {
+						return false
+					}
+					bl := ff[0].declared != -1<<40 && rr.lens[0] != ff[0].declared && !(rr.lens[0] == 0 && ff[0].hasContig)
+					br := ff[0].hasOrigin && !ff[0].ambiguous && rr.lens[0] != ff[0].residues
+					return bl || br
+				}
+				small := data
+				if nGb == 0 {
+					small = c.shrink(data, pred)
+				}
+				r.fail(Failure{Oracle: "a scanned record has Len = declared LOCUS length (= residues in its ORIGIN block; 0 with a CONTIG line) (" + class + ")",
+					Op: "scan.auto " + encBytes(small), Got: fmt.Sprintf("%s (record %d: Len %d, declared %d, ORIGIN line %v, residues present %d, CONTIG line %v)", res.String(), nGb, res.lens[i], f.declared, f.hasOrigin, f.residues, f.hasContig),
+					Want: "an error, or no record"})
+			default:
+				r.count("consistency/checked")
+				if f.ambiguous {
+					r.count("consistency/ORIGIN or // inside a quoted qualifier value")
+				}
+				if !f.hasOrigin {
+					r.count("consistency/record without ORIGIN line")
+				}
 			}
 		}
 		nGb++
@@ -1373,8 +1382,9 @@ func propC07(r *Run) {
 		{"F16 REFERENCE 1000", "LOCUS       X                  0 bp    DNA     linear   UNA 01-JAN-2000\nREFERENCE   1000\n//\n"},
 		{"F17 declared length -60", "LOCUS       X                 -60 bp    DNA     linear   UNA 01-JAN-2000\nORIGIN      \n//\n"},
 		{"F10 truncated inside ORIGIN", "LOCUS       X                  20 bp    DNA     linear   UNA 01-JAN-2000\nORIGIN      \n        1 acgtacgtac acg"},
-		{"K7C CR CR LF in front of ORIGIN", "LOCUS       X                  4 bp    DNA     linear   UNA 01-JAN-2000\nBASE\r\r\nORIGIN      \n        1 acgt\n//\n"},
-		{"K7C CR CR CR LF in a field body", "LOCUS       X                  4 bp    DNA     linear   UNA 01-JAN-2000\nDEFINITION  x.\r\r\r\nORIGIN      \n        1 acgt\n//\n"},
+		{"F21 CR CR LF in front of ORIGIN", "LOCUS       X                  4 bp    DNA     linear   UNA 01-JAN-2000\nBASE\r\r\nORIGIN      \n        1 acgt\n//\n"},
+		{"F21 CR CR CR LF in a field body", "LOCUS       X                  4 bp    DNA     linear   UNA 01-JAN-2000\nDEFINITION  x.\r\r\r\nORIGIN      \n        1 acgt\n//\n"},
+		{"F21 ORIGIN line deleted", "LOCUS       X                  4 bp    DNA     linear   UNA 01-JAN-2000\n        1 acgt\n//\n"},
 		{"empty DEFINITION", "LOCUS       X                  0 bp    DNA     linear   UNA 01-JAN-2000\nDEFINITION  \n//\n"},
 		{"DEFINITION at end of input", "LOCUS       X                  0 bp    DNA     linear   UNA 01-JAN-2000\nDEFINITION  "},
 	} {
@@ -1404,7 +1414,7 @@ func propC07(r *Run) {
 		fmt.Sprintf("scanner inputs: %d (watchdog %s per input; verdicts in the histogram under scan/<generator>/<file>/<verdict>)", c.nScan, c07Watchdog),
 		"exhaustive small scope: all strings up to the tier's length over the alphabets of locations, modifiers, locators, selectors, dates, molecule/topology words and feature tables (with keyword prefixes); every line of every corpus file deleted / duplicated / swapped / re-indented; every field line with its value dropped or its name widened",
 		"correspondence (verdict class and value): loc.parse, mod.parse, loc.try, locator.kind, sel.shift, date.parse, date.fmt, mol.parse, top.parse; oracle only: scan.auto, insdc.table, locator application, Selector filters",
-		"lenient by design, not judged: a record without an ORIGIN line is returned with Len 0 whatever its LOCUS line declares (CON records), so deleting the ORIGIN line of a record lets the following sequence lines be skipped as unknown lines")
+		"a record with a CONTIG line and no sequence (CON division) is returned with Len 0 whatever its LOCUS line declares; every other returned record must have Len = declared length")
 	r.sample("scan.auto <" + corpus[0].name + " cut at every offset>")
 	r.sample("scan.auto " + encStr("LOCUS       X                  0 bp    DNA     linear   UNA 01-JAN-2000\nDBLINK      X:\n//\n"))
 }
